@@ -297,6 +297,7 @@ type vDCfg struct {
 
 // vDNet is a dual DHT wired to two simulated networks over one fake host.
 type vDNet struct {
+	opNo  int // operations run so far (Run is sequential)
 	C     *vh.Case
 	Cfg   vDCfg
 	U     *vDUniverse
@@ -762,6 +763,20 @@ func (n *vDNet) Run(op vDOp) *vDRes {
 	res.WJ0, res.LJ0 = n.WDS.J.Len(), n.LDS.J.Len()
 	ctx, cancel := context.WithCancel(context.Background())
 	res.Keep = cancel
+	// every second operation of a case runs under a context subscribed to routing query events (as `ipfs dht query`
+	// style callers do): the clients publish and forward those events on code paths of their own
+	n.opNo++
+	if (n.opNo+n.C.Idx)%2 == 0 {
+		var qch <-chan *routing.QueryEvent
+		ctx, qch = routing.RegisterForQueryEvents(ctx)
+		go func() {
+			k := 0
+			for range qch {
+				k++
+			}
+			n.C.Obs("query_events_seen", k)
+		}()
+	}
 	var tm *time.Timer
 	var cmu sync.Mutex
 	markCancel := func() {
